@@ -46,7 +46,7 @@ func CalleeName(c ssa.CallInstruction) string {
 	switch v := cc.Value.(type) {
 	case *ssa.Function:
 		if v.Object() != nil {
-			return v.Object().(*types.Func).FullName()
+			return oldNameOf(v.Prog, v.Object().(*types.Func).FullName())
 		}
 		return v.String()
 	case *ssa.Builtin:
